@@ -931,6 +931,18 @@ fn w_c05_seq() {
             cases += 1;
         }
     }
+    // requests that span several packets: the reply starts one above the id of the request's LAST packet
+    for (len, nfrag) in [(MAXP - 1, 2u8), (MAXP + 10, 2), (2 * MAXP - 1, 3)] {
+        let big: Vec<u8> = (0..len).map(|j| b'a' + (j % 17) as u8).collect();   // payload = 1 command byte + len
+        for s in [0u8, 254] {
+            let r = converse(hs41(b"u", 0), &[(c_query(&big), s), quit()], vec![], false, None, None);
+            assert!(r.result.is_ok(), "[C05.w.run] a {}-packet request with first id {} failed: {:?}", nfrag, s, r.result);
+            let raw = raw_packets(&r.out).expect("[C04.w.frame] not on a packet boundary");
+            let want = s.wrapping_add(nfrag);
+            assert!(raw.len() >= 3 && raw[2].0 == want, "[C05.w.lastseq] the reply to a request sent as {} packets with ids {}.. starts with id {} instead of {}", nfrag, s, raw.get(2).map(|x| x.0).unwrap_or(0), want);
+            cases += 1;
+        }
+    }
     println!("VERIF-NATIVE w_c05_seq cases={} nontrivial={}", cases, cases);
 }
 
